@@ -52,8 +52,9 @@ class VersionWorld:
 
 def cubes(tier, has_fc):
     if tier == 'quick': return [{'U': 4, 'E': 2, 'part': 'select'}, {'U': 3, 'E': 1, 'part': 'exclusion'}]
-    return [{'U': 6, 'E': 3, 'part': 'select'}, {'U': 5, 'E': 2, 'part': 'select'}, {'U': 3, 'E': 1, 'part': 'exclusion'}]
-def cube_name(c): return f"U{c['U']}E{c['E']}_{c['part']}"
+    # the two-execution order-independence obligation is decided up to U = 5 (it did not finish in 25 min at U = 6)
+    return [{'U': 6, 'E': 3, 'part': 'select', 'no_perm': True}, {'U': 5, 'E': 2, 'part': 'select'}, {'U': 3, 'E': 1, 'part': 'exclusion'}]
+def cube_name(c): return f"U{c['U']}E{c['E']}_{c['part']}" + ('_single-order' if c.get('no_perm') else '')
 
 def maxsel(U, member):
     """(exists, id) of the highest-ranked member"""
@@ -137,11 +138,12 @@ def build(mir, cube):
     # the same rule with the code's strict comparison must hold without any exclusion (pins everything but the boundary)
     qs.append(Query('four-tier-rule-modulo-cutoff-boundary', z3.Or(res.is_err == found_s, z3.And(found_s, z3.Or(res.version != ver_s, res.yanked != yk_s))), ops=ops, world=world))
     # independence from HashMap iteration order: a second execution under another permutation gives the same answer
-    sym2 = Sym(); perm2 = [sym2.bv(f'permB{i}', 8, lt=U) for i in range(U)]
-    eng.cfg['hash_perm'] = perm2
-    res2 = Resolve(eng, vw)
-    eng.cfg['hash_perm'] = vw.perm
-    qs.append(Query('result-independent-of-hash-iteration-order', z3.And(z3.Distinct(perm2) if U > 1 else True, And(sym2.cons), z3.Or(res.is_err != res2.is_err, z3.And(z3.Not(res.is_err), z3.Or(res.version != res2.version, res.yanked != res2.yanked)))), ops=ops, world=world))
+    if not cube.get('no_perm'):
+      sym2 = Sym(); perm2 = [sym2.bv(f'permB{i}', 8, lt=U) for i in range(U)]
+      eng.cfg['hash_perm'] = perm2
+      res2 = Resolve(eng, vw)
+      eng.cfg['hash_perm'] = vw.perm
+      qs.append(Query('result-independent-of-hash-iteration-order', z3.And(z3.Distinct(perm2) if U > 1 else True, And(sym2.cons), z3.Or(res.is_err != res2.is_err, z3.And(z3.Not(res.is_err), z3.Or(res.version != res2.version, res.yanked != res2.yanked)))), ops=ops, world=world))
     # vacuity witnesses: every tier is reached
     e1 = Or(z3.And(p, Or(z3.And(v == i, vw.matches[i]) for i in range(U))) for p, v in vw.existing)
     qs.append(Query('witness-tier1-existing-version-beats-newer-registry-version', z3.And(z3.Not(res.is_err), e1, Or(z3.And(vw.present[i], z3.Not(vw.yanked[i]), vw.matches[i], z3.UGT(z3.BitVecVal(i, 8), res.version)) for i in range(U))), expect='sat', kind='witness', ops=ops, world=world))
